@@ -158,7 +158,7 @@ Holds(c) == CASE c = "C13_MgrNoForeignChain" -> T_MgrNoForeignChain [] c = "C13_
 TStep == /\ TNext
          /\ LET nb == {c \in Clauses : ~(Holds(c))'} IN
               /\ bad' = bad \cup {<<l, c>> : c \in nb}
-              /\ IF nb = {} \/ Cardinality(bad) > 40 THEN TRUE ELSE PrintT(<<"VERIF_BAD", l, nb>>)
+              /\ IF nb = {} \/ Cardinality(bad) > 2000 THEN TRUE ELSE PrintT(<<"VERIF_BAD", l, nb>>)
          /\ CovStep
          /\ IF l' <= Len(TraceLog) THEN TRUE ELSE PrintT(<<"VERIF_COV", ToJson(cov')>>)
 TSpec == TInit /\ [][TStep]_tvars
